@@ -316,6 +316,39 @@ theorem error_handler_stmts_as_modelled :
        "current_heart_beat = 0;",
        "in_error = 0;"] := by decide
 
+/-- `resetObjectR`: reset_object() stamps `next_reset` BEFORE it applies reset() ("Be sure to update time first !"): a
+    reset() that raises leaves an object that is no longer due, so the restarted walk of the sweep moves on (with the
+    assignment behind the apply the sweep would find the object due again and spin inside one tick: seeded C09-6,
+    oracle clause `sweep`); O_RESET_STATE is set when the apply returns -/
+theorem reset_object_as_modelled :
+    NV.Gen.C09.resetObjectStmts =
+      ["next_reset",
+       "apply_reset",
+       "clear_will_reset",
+       "set_reset_state",
+       "if (CONFIG_INT (__TIME_TO_RESET__) > 0)",
+       "ob->next_reset = current_time + CONFIG_INT (__TIME_TO_RESET__) / 2 + rand () % (CONFIG_INT (__TIME_TO_RESET__) / 2);"] := by decide
+
+/-- `setSnoop` / `snoopLoop` / `snoopLink`: destructed ends refused; stop-snoop form (not scripted); the loop
+    protection walks `snoop_on` from the target and refuses when it meets the snooper; the snooper's previous target and
+    the target's previous snooper are unlinked on BOTH sides before the new link is set -/
+theorem set_snoop_as_modelled :
+    NV.Gen.C09.snoopStmts =
+      ["if (me->flags & O_DESTRUCTED)",
+       "if (you && (you->flags & O_DESTRUCTED))",
+       "if (by->snoop_on)",
+       "by->snoop_on->snoop_by = 0;",
+       "by->snoop_on = 0;",
+       "for (tmp = on; tmp; tmp = tmp->snoop_on)",
+       "if (by->snoop_on)",
+       "by->snoop_on->snoop_by = 0;",
+       "by->snoop_on = 0;",
+       "if (on->snoop_by)",
+       "on->snoop_by->snoop_on = 0;",
+       "on->snoop_by = 0;",
+       "on->snoop_by = by;",
+       "by->snoop_on = on;"] := by decide
+
 /-- every source shape of the repaired code that the model mirrors is present (all_users guard, re-validation through
     the object, recovery point before the start-up steps, load-average clamp, connect() under its own recovery point,
     pending events cleared when a record is freed, logon() under its own recovery point, the record re-validated after the CR LF echo in copy_chars(), the snoop
